@@ -48,8 +48,33 @@ fn main() {
             }
             let n_corpus = lines.len();
             let mut rng = Rng::new(seed);
-            lines.extend(prop.gen(&mut rng, tier));
             std::fs::create_dir_all(&out).unwrap();
+            // Some generators execute the implementation (to enumerate reachable states, to label requests). A change
+            // of routecore that makes it spin there would otherwise hang the check before the per-request watchdog
+            // of `run_lines` exists: bound the generation phase and report it as a hang of the request
+            // `<generation>` (ops.txt then holds that one line, hang.txt its index).
+            let gen_done = std::sync::Arc::new(std::sync::atomic::AtomicBool::new(false));
+            {
+                let gen_done = gen_done.clone();
+                let out = out.clone();
+                let limit = match tier { Tier::Quick => 600u64, Tier::Thorough => 7200 };
+                std::thread::spawn(move || {
+                    let t0 = std::time::Instant::now();
+                    loop {
+                        std::thread::sleep(std::time::Duration::from_millis(500));
+                        if gen_done.load(std::sync::atomic::Ordering::SeqCst) { return; }
+                        if t0.elapsed().as_secs() > limit {
+                            let _ = std::fs::write(format!("{}/ops.txt", out), "<generation of the request lines (the generator executes the implementation)>\n");
+                            let _ = std::fs::write(format!("{}/impl.out", out), "");
+                            let _ = std::fs::write(format!("{}/hang.txt", out), "0\n");
+                            eprintln!("watchdog: generating the request lines exceeded {} s", limit);
+                            std::process::exit(3);
+                        }
+                    }
+                });
+            }
+            lines.extend(prop.gen(&mut rng, tier));
+            gen_done.store(true, std::sync::atomic::Ordering::SeqCst);
             std::fs::write(format!("{}/ops.txt", out), lines.join("\n") + "\n").unwrap();
             std::fs::write(format!("{}/n_corpus.txt", out), format!("{}\n", n_corpus)).unwrap();
             run_lines(prop, &lines, &out, n_corpus).unwrap();
